@@ -10,7 +10,7 @@
    fragment: a map entry that is a struct held by value has scalar/string/bytes fields only, no
    []byte and no map held by value as slice element, no []byte as map value. *)
 From Coq Require Import List Bool String Ascii ZArith Arith Floats.SpecFloat.
-From Verif Require Import Util Ints Floats Node GoSrc Value Outcome Nav LCSound SetEmit SetSpec SetSound Shapes GenUnits GenC03.
+From Verif Require Import Util Ints Floats Node GoSrc Value Outcome Nav LCSound SetEmit SetSpec SetSound SetMono Shapes GenUnits GenC03.
 Import ListNotations.
 Local Open Scope string_scope.
 
@@ -27,6 +27,18 @@ Theorem C03_frame_and_store : forall s buf n v path,
   end.
 Proof. exact set_method_sound. Qed.
 Print Assumptions C03_frame_and_store.
+
+(* The frame clause alone, as the stream judges it on the real objects ([frame_ok]: the end of the
+   path is free): whatever the path and the value, no element off the path changes. *)
+Theorem C03_frame : forall s buf n v path v' e,
+  wfn n = true -> sound_set n = true -> root_ok n = true -> wtb n v = true ->
+  set_method n v path s buf = Ret v' e -> frame_ok n path v v' = true.
+Proof.
+  intros s buf n v path v' e W SD RO WT R.
+  pose proof (set_method_sound s buf n v path W SD RO WT) as G. rewrite R in G.
+  exact (frame_of_store s buf n path v v' G).
+Qed.
+Print Assumptions C03_frame.
 
 (* no panic for well-typed values (feeds C02) *)
 Theorem C03_no_panic : forall s buf n v path,
